@@ -470,6 +470,7 @@ def run(ck: common.Check, replay=None):
         c = X.Case(name, r["vhdl"], step=f"seq_step sdecls body", init=init,
                    defs=f"Definition sdecls := {DEFAULT_UNI.sdecls()}.\nDefinition body : stm := {ref}.",
                    imports="From Cohdl Require Import Models.SeqRef.", clk="clk" if mode == "clocked" else None,
+                   alphabet_overrides={"i": "[VV KUns 2%N 0%Z; VV KUns 2%N 1%Z; VV KUns 2%N 3%Z]"} if ck.tier == "quick" else None,
                    meta={"mode": mode, "source": src, "ref": ref})
         cases.append(c)
         ck.hist("modes", mode)
